@@ -23,7 +23,10 @@ MANIFEST = dict(
            "a real Unix socket answering a client built from /repo's libmunge under ASan/UBSan (~3.9k scripts per quick "
            "run): all header types 0..255, bodies of every type's layout, nested headers, truncation at every offset, every "
            "length field lying, trailing bytes, scripts over the five attempts; outcome and requests compared with the "
-           "extracted model and the clause evaluated directly on libmunge's answers.", "7 C14"),
+           "extracted model and the clause evaluated directly on libmunge's answers.  Concurrent use (munged's workers): 8 "
+           "threads sending / receiving different messages at once on their own socketpairs, the window between packing and "
+           "writev fixed by a shim, every wire compared with the same message sent alone and with the documented encoding; "
+           "the same under ThreadSanitizer.", "7 C14"),
     note="Trusted: Coq kernel+vm_compute, gen_facts probes and source-text translators (msgtables, msgclientsrc), "
          "extraction (ExtrOcamlBasic), harness/driver glue (msg_harness.c, msgclient_harness.c incl. its peer thread). "
          "Client side: the wording of locally generated diagnostics and the error string of a failed exchange are not "
@@ -1233,6 +1236,143 @@ def daemon_dispatch_phase(ctx):
                       {"raw_hex": raw.hex(), "class": cls, "sanitizer": kinds})
 
 
+
+# =========================================================================================================
+# several threads packing / sending / receiving different messages at the same time (munged's workers)
+# =========================================================================================================
+def _hdr_of(w):
+    if len(w) < HDR:
+        return None
+    magic, ver, ty, retry, plen = struct.unpack(">IBBBI", w[:HDR])
+    return dict(magic=magic, version=ver, type=ty, retry=retry, pkt_len=plen)
+
+
+def concurrent_phase(ctx):
+    """m_msg_send / m_msg_recv are used by munged's worker threads and by multi-threaded libmunge users at the same time, each on
+    its own message object and socket: what a thread puts on the wire must be a function of ITS message alone (the same bytes as
+    when it is sent alone: header type = the message's type, header length = the number of body bytes produced, body = the packing
+    of its members), and what it receives likewise.  harness/msgconc_harness.c: 8 threads, different types and lengths per
+    thread, the schedule in the window between packing and writing fixed by a writev shim; once more under ThreadSanitizer."""
+    rng = ctx.rng
+    R_ = vlib.REPO
+    src = [os.path.join(vlib.HARNESS, "msgconc_harness.c")] + [os.path.join(R_, p) for p in (
+        "src/libcommon/m_msg.c", "src/libcommon/fd.c", "src/libcommon/str.c", "src/libmunge/strerror.c")]
+    wrap = ["-Wl,--wrap=writev"]
+    exe, err = vlib.cc(ctx, "msgconc", src, extra=wrap, libs=["-lpthread"])
+    tsan, err2 = vlib.cc(ctx, "msgconc_tsan", src, extra=wrap + ["-fsanitize=thread"], libs=["-lpthread"], san=False)
+    if exe is None:
+        ctx.violation("concurrent message harness does not build against /repo: " + err[-500:],
+                      {"obligation": "correspondence C14 concurrent (build)", "stderr": err}, found_input=False)
+        return
+    msgs = []
+    if ctx.replay and "conc_lines" in json.load(open(ctx.replay)):
+        lines = json.load(open(ctx.replay))["conc_lines"]
+        for l in lines:
+            f = l.split(" ")
+            msgs.append((int(f[1]), parse_state(f[2:10])))
+    else:
+        sizes = [0, 1, 7, 64, 300, 1021, 3286, 3778, 4096, 9000]
+        k = 0
+        for code in (3, 5, 2, 4, 6, 3, 5, 3, 5, 2, 4, 3, 5, 6, 3, 5, 3, 5, 2, 4, 3, 5, 3, 5):
+            st = rnd_msg(rng, code)
+            st["retry"] = k
+            big = sizes[k % len(sizes)] + k            # every message its own length
+            lf = [f for f in FIELDS[code] if f[0] == "var" and f[2] not in U8S][-1]
+            st[lf[2]] = big
+            st[lf[1]] = rnd_bytes(rng, big) if big else None
+            msgs.append((code, st))
+            k += 1
+        lines = ["M %d %s" % (c, state_tokens(st)) for (c, st) in msgs]
+    want = []
+    for code, st in msgs:
+        body = ref_pack(code, st)
+        want.append(header(code, len(body), st["retry"]) + body)
+    nthr, rounds = 8, (600 if ctx.thorough else 120)
+    findings = []          # (severity, text, replay dict)
+
+    def run_one(binary, force, rnds, env):
+        rc, out, errtxt = vlib.run_lines([binary, str(nthr), str(rnds), str(force)], lines, timeout=300, env=env)
+        refs, bads, badr, done = {}, [], [], None
+        for l in out:
+            f = l.split(" ")
+            if f[0] == "REF":
+                refs[int(f[1])] = (int(f[2]), unhex(f[3]), f[4])
+            elif f[0] == "BADSEND":
+                bads.append((int(f[1]), int(f[2]), int(f[3]), unhex(f[4]), f[5]))
+            elif f[0] == "BADRECV":
+                badr.append(l)
+            elif f[0] == "DONE":
+                done = dict(x.split("=") for x in f[1:])
+        return rc, refs, bads, badr, done, errtxt
+
+    def explain(t, r, i, w, rcs):
+        code, st = msgs[i]
+        h = _hdr_of(w)
+        mine = want[i]
+        if h is None:
+            return "thread %d, round %d: message %d (type %d, %d body bytes) produced %d bytes (%s)" % (t, r, i, code, len(mine) - HDR, len(w), rcs)
+        whose = [j for j, x in enumerate(want) if x[:HDR] == w[:HDR]]
+        body_ok = w[HDR:] == mine[HDR:]
+        return ("thread %d, round %d sent message %d (type %d = %s, retry %d, body of %d bytes): the header on the wire says type=%d "
+                "retry=%d pkt_len=%d%s, the body that follows is %s of %d bytes - the length announced is not the number of bytes "
+                "produced and the receiver unpacks another message" % (
+                    t, r, i, code, TYPE_NAME.get(code, "?"), st["retry"], len(mine) - HDR, h["type"], h["retry"], h["pkt_len"],
+                    (" (the header of message %d, which another thread was sending)" % whose[0]) if whose and whose[0] != i else "",
+                    "the complete body of message %d" % i if body_ok else "not this message's body either", len(w) - HDR))
+
+    runs = [("forced schedule", exe, 1, rounds, {"ASAN_OPTIONS": "detect_leaks=1:abort_on_error=0:exitcode=99"}),
+            ("free-running", exe, 0, rounds * 2, {"ASAN_OPTIONS": "detect_leaks=1:abort_on_error=0:exitcode=99"})]
+    if tsan:
+        runs.append(("ThreadSanitizer", tsan, 0, max(20, rounds // 4), {"TSAN_OPTIONS": "exitcode=0:halt_on_error=0:report_signal_unsafe=0"}))
+    else:
+        ctx.notes.append("concurrent phase: the ThreadSanitizer build failed (%s); ASan runs only" % err2[-200:])
+    total = 0
+    for name, binary, force, rnds, env in runs:
+        rc, refs, bads, badr, done, errtxt = run_one(binary, force, rnds, env)
+        if done is None or (rc != 0 and name != "ThreadSanitizer"):
+            findings.append((1, "concurrent harness (%s) did not finish: rc=%d %s" % (name, rc, errtxt[-400:]),
+                             {"obligation": "concurrent run", "stderr": errtxt[-3000:], "conc_lines": lines}))
+            continue
+        total += int(done["sends"]) + int(done["recvs"])
+        for i, (code, w, rcs) in refs.items():
+            if w != want[i]:
+                findings.append((0, "message %d (type %d) sent alone: wire bytes differ from the documented encoding (%s)" % (i, code, rcs),
+                                 {"conc_lines": lines, "case_line": lines[i], "got": w.hex(), "want": want[i].hex()}))
+                break
+        if bads:
+            t, r, i, w, rcs = bads[0]
+            findings.append((0, "%s, %d threads: %s (%s of %s concurrent sends differ from the same message sent alone)" % (
+                name, nthr, explain(t, r, i, w, rcs), done["badsend"], done["sends"]),
+                {"conc_lines": lines, "case_line": lines[i], "thread": t, "round": r, "message": i, "wire_hex": w.hex(),
+                 "own_wire_hex": want[i].hex(), "schedule": name, "threads": nthr, "rounds": rnds,
+                 "more": [explain(*b)[:400] for b in bads[1:4]]}))
+        if badr:
+            findings.append((0, "%s, %d threads: m_msg_recv gives a thread something else than the same bytes received alone: %s (%s of %s)" % (
+                name, nthr, badr[0], done["badrecv"], done["recvs"]), {"conc_lines": lines, "bad": badr[:5], "schedule": name}))
+        if name == "ThreadSanitizer":
+            for rep in re.findall(r"WARNING: ThreadSanitizer: data race.*?={18}", errtxt, re.S):
+                if "m_msg.c" in rep or "fd.c" in rep:
+                    loc = re.search(r"Location is ([^\n]*)", rep)
+                    fr = re.findall(r"#\d+ (\w+) [^\n]*?(m_msg\.c:\d+|fd\.c:\d+)", rep)
+                    findings.append((2, "ThreadSanitizer: data race in the codec between two threads sending different messages: %s; %s" % (
+                        loc.group(1) if loc else "?", " / ".join("%s %s" % x for x in fr[:4])),
+                        {"conc_lines": lines, "tsan_report": rep[:4000], "schedule": "free-running under TSan"}))
+                    break
+    ctx.cov.setdefault("input_distribution", {})["concurrent-send-recv"] = total
+    ctx.cov["concurrent"] = {"threads": nthr, "messages": len(msgs), "operations": total}
+    ctx.count(("concurrent", tuple(lines)))
+    ctx.log("concurrent: %d threads, %d sends/receives of %d different messages, %d findings" % (nthr, total, len(msgs), len(findings)))
+    findings.sort(key=lambda x: x[0])
+    if findings:
+        sev, text, rep = findings[0]
+        race = [f for f in findings if f[0] == 2]
+        if race and sev != 2:
+            text += "; " + race[0][1]
+            rep = dict(rep, tsan_report=race[0][2]["tsan_report"])
+        rep["also"] = [f[1][:600] for f in findings[1:5]]
+        ctx.violation(text, rep, found_input=("case_line" in rep or "tsan_report" in rep))
+
+
 def run(ctx):
     """the property's own check, then the component check of the socket I/O loops (fd.c) that every request and reply of
     this property goes through: Properties_FD.v + correspondence FdModel ~ /repo's fd.c (tools/props/fd_common.py)"""
@@ -1243,6 +1383,9 @@ def run(ctx):
         ctx.violation("proof obligation no longer checks: %s" % getattr(ctx, "broken_obligation", "?"),
                       {"obligation": getattr(ctx, "broken_obligation", "?"), "log": ctx.proof_log[-3000:]},
                       found_input=False)
+    rp = json.load(open(ctx.replay)) if getattr(ctx, "replay", None) else None
+    if rp is None or "conc_lines" in rp:
+        concurrent_phase(ctx)
     if not getattr(ctx, "replay", None):
         daemon_dispatch_phase(ctx)
     from props import fd_common
